@@ -282,6 +282,10 @@ func (a *arch) materialise(dir string, disk map[string][]byte, vols []string) er
 		}
 	}
 	for p, b := range a.Others {
+		if _, isProt := a.Prot[p]; isProt {
+			// harness invariant: a bystander must never be written over a protected file
+			return fmt.Errorf("harness: bystander %q collides with a protected file", p)
+		}
 		if err := sandbox.WriteFile(filepath.Join(dir, filepath.FromSlash(p)), b); err != nil {
 			return err
 		}
